@@ -326,6 +326,18 @@ func (v *Verifier) havocPointees(s *State, args []*Value) { v.havocPointeesPolic
 // havocPointeesPolicy: with dynamic==true (callbacks / interface methods / func values) module structs reachable from
 // pointer arguments are assumed unmodified (listed assumption); buffers and non-struct pointees are still havoc'd.
 func (v *Verifier) havocPointeesPolicy(s *State, args []*Value, dynamic bool) {
+	// a callee that receives a closure may call it any number of times: everything the closure can write is havoc'd
+	for _, a := range args {
+		if a != nil && a.Clo != nil && a.Clo.Fn != nil && a.Clo.Fn.Blocks != nil {
+			ms := v.modset(a.Clo.Fn)
+			if len(ms) > 0 {
+				s.bumpWM()
+			}
+			for _, k := range sortedKeys(ms) {
+				s.freshHeap("Hcb!", k, ms[k])
+			}
+		}
+	}
 	for _, a := range args {
 		if a == nil {
 			continue
@@ -385,7 +397,10 @@ func (v *Verifier) callInterface(s *State, c *ssa.CallCommon, recv *Value, args 
 		return v.applyContractNamed(s, fc, sig, full, pos, resultType(c), key, true)
 	}
 	v.trusted["<interface> "+key] = true
+	invs := v.callbackInvs(s, c.Method.Name(), args)
+	v.checkCallbackInvs(s, invs, pos)
 	v.havocPointeesPolicy(s, args, true)
+	v.assumeCallbackInvs(s, invs)
 	return v.havocResult(s, resultType(c), key)
 }
 
@@ -1327,4 +1342,50 @@ func (fc *FuncContract) Decreases2Props() []string { return nil }
 func (v *Verifier) applyFieldCallback(s *State, fc *FuncContract, sig *types.Signature, self *Value, args []*Value, pos token.Pos, rt types.Type, name string) *Value {
 	full := append([]*Value{self}, args...)
 	return v.applyContractNamed(s, fc, sig, full, pos, rt, name, true)
+}
+
+
+// callback-loop invariants (clause `callbackinv`)
+func (v *Verifier) callbackInvs(s *State, callee string, args []*Value) []*SiteAssert {
+	hasClo := false
+	for _, a := range args {
+		if a != nil && a.Clo != nil {
+			hasClo = true
+		}
+	}
+	if !hasClo || s.frame == nil {
+		return nil
+	}
+	fc := v.contracts.forFunc(s.frame.fn)
+	if fc == nil {
+		return nil
+	}
+	var out []*SiteAssert
+	for _, ci := range fc.CallbackInvs {
+		if ci.Match == callee {
+			out = append(out, ci)
+		}
+	}
+	return out
+}
+
+func (v *Verifier) checkCallbackInvs(s *State, invs []*SiteAssert, pos token.Pos) {
+	for _, ci := range invs {
+		ev := v.newEval(s, s.frame.fn, v.cellsOf(s), evalLoop)
+		v.addOb(s, "inv-entry", pos, ev.boolExpr(ci.Expr), "callbackinv "+ci.Match+": "+ci.Text, ci.Props)
+	}
+}
+
+func (v *Verifier) assumeCallbackInvs(s *State, invs []*SiteAssert) {
+	for _, ci := range invs {
+		ev := v.newEval(s, s.frame.fn, v.cellsOf(s), evalLoop)
+		s.assume(ev.boolExpr(ci.Expr))
+	}
+}
+
+func (v *Verifier) cellsOf(s *State) *frameCells {
+	if s.frame != nil && s.frame.fn == v.top {
+		return v.topCells
+	}
+	return nil
 }
